@@ -368,6 +368,26 @@ const namedFuncDecls = "type FnE func() (int, error)\n\ntype FnIE func(int) (int
 
 const concreteErrDecls = "type MyErr struct{ C int }\n\nfunc (m MyErr) Error() string { return \"\" }\n\ntype PErr struct{ C int }\n\nfunc (m *PErr) Error() string { return \"\" }\x00"
 
+// a generic type that contains a larger instantiation of itself: legal Go, and no finite set of functions covers it
+const expandingDecls = "type Grow[T any] struct {\n\tV    T\n\tNext *Grow[[]T]\n}\n\ntype GrowM[K comparable] struct {\n\tM map[K]*GrowM[[2]K]\n}\x00"
+
+func init() {
+	for _, m := range []misuse{
+		{"expanding-generic", "equal", "deriveEqualX(&Grow[int]{}, &Grow[int]{})"},
+		{"expanding-generic", "compare", "deriveCompareX(&Grow[string]{}, &Grow[string]{})"},
+		{"expanding-generic", "hash", "deriveHashX(&Grow[int]{})"},
+		{"expanding-generic", "clone", "deriveCloneX(&Grow[int]{})"},
+		{"expanding-generic", "deepcopy", "deriveDeepCopyX(&Grow[int]{}, &Grow[int]{})"},
+		{"expanding-generic", "gostring", "deriveGoStringX(&Grow[int]{})"},
+		{"expanding-generic", "equal", "deriveEqualX(GrowM[int]{}, GrowM[int]{})"},
+		{"expanding-generic", "sort", "deriveSortX([]*Grow[int]{})"},
+		{"expanding-generic", "mem", "deriveMemX(func(*Grow[int]) int { return 0 })"},
+	} {
+		m.call = expandingDecls + m.call
+		misuses = append(misuses, m)
+	}
+}
+
 const namedListDecls = "type Names []string\n\ntype Tags []string\n\ntype Ages map[string]int\n\ntype Sizes map[string]int\n\ntype NameSet map[string]struct{}\n\ntype TagSet map[string]struct{}\x00"
 
 func init() {
